@@ -59,6 +59,7 @@ struct Config {
 	std::vector<Board> boards;
 	std::vector<Train> trains;
 	bool hexnums = true;
+	bool zeropad = false;            // decimal byte values written with leading zeros (008, 010): still decimal
 	// raw overrides used by fault injection (printed instead of the structured value when set)
 	std::string board_yaml() const;
 	std::string track_yaml() const;
@@ -79,6 +80,7 @@ struct GenOpts {
 	bool need_segments = false;
 	bool simple_ids = true;
 	int interface_chance = 100;       // /256: probability of the interface class bit per board
+	bool allow_zeropad = false;       // C14: decimal numbers may carry leading zeros
 	bool wide_dcc = false;            // DCC address high bytes over 0..255 (C14 only: other properties rely on 14-bit addresses)
 };
 
